@@ -244,6 +244,22 @@ class MultiSystem(object):
         cfg = self.cfg
         self.next_script = k + 1
         ci, peer, inv = cfg.script[k][:3]
+        if inv is not None and not (0 <= inv <= 255):
+            # no octet: the only right answer is a refusal (any exception) that leaves nothing behind
+            before = (len(self.clients[ci].smap.clientTransactions), len(vclock.pending_tasks()), len(self.wire.inflight))
+            try:
+                self.clients[ci].submit(Address(peer), cfg.req_len, service_number=k + 1, invoke=inv)
+            except Exception:
+                self.outcome[k + 1] = ("refused-at-submit", False)
+            else:
+                self.problems.append(("invoke-id-that-is-no-octet-accepted", {"request": k + 1, "invoke": inv}))
+                self.outcome[k + 1] = ("accepted", False)
+            vclock.settle()
+            after = (len(self.clients[ci].smap.clientTransactions), len(vclock.pending_tasks()), len(self.wire.inflight))
+            if after != before and (k + 1) in self.outcome and self.outcome[k + 1][0] == "refused-at-submit":
+                self.problems.append(("refused-submission-left-something-behind",
+                                      {"request": k + 1, "invoke": inv, "transactions/timers/frames before": before, "after": after}))
+            return
         try:
             req = self.clients[ci].submit(Address(peer), cfg.req_len, service_number=k + 1, invoke=inv)
             got = req.apduInvokeID
